@@ -21,10 +21,6 @@ open I18nVerif
     oracle table), not panic sites of the Rust code -/
 def Benign (s : String) : Prop := s = "fuel" ∨ s = "oracle: plural category missing"
 
-/-- the panic sites of `reduce`/`reduce_into` on an unresolved foreign key -/
-def FKLeft (s : String) : Prop :=
-  s = "reduce: unresolved foreign key" ∨ s = "reduce_into: unresolved foreign key"
-
 /-- a `BTreeMap` as the model stores it: strictly sorted by key -/
 def Sorted {α : Type} (m : List (Str × α)) : Prop := m.Pairwise (fun a b => AMap.strLt a.1 b.1 = true)
 
@@ -84,7 +80,8 @@ def RawK : List (Str × PV) → Bool
 end
 
 mutual
-/-- no foreign-key node at any place `Foreign.hasFK` looks at (it does not look below a foreign key) -/
+/-- no foreign-key node at any place `Foreign.containsFK` (= `hasFK`) looks at (it does not look below a
+    foreign key): `FKFree v = !containsFK v` -/
 def FKFree : PV → Bool
   | .fk _ => false
   | .comp _ i => FKFree i
@@ -104,29 +101,6 @@ def FKFreeB : List (Range × PV) → Bool
 def FKFreeF : List (Form × PV) → Bool
   | [] => true
   | (_, x) :: xs => FKFree x && FKFreeF xs
-end
-
-mutual
-/-- constructor depth of a value along the places `Foreign.hasFK` descends into -/
-def fkDepth : PV → Nat
-  | .comp _ i => fkDepth i + 1
-  | .bloc l => fkDepthL l + 1
-  | .ranges _ _ bs => fkDepthB bs + 1
-  | .plurals _ _ o fs => max (fkDepth o) (fkDepthF fs) + 1
-  | .fk _ => 1
-  | .subkeys _ => 1
-  | .dflt => 1
-  | .lit _ => 1
-  | .var _ _ => 1
-def fkDepthL : List PV → Nat
-  | [] => 0
-  | x :: xs => max (fkDepth x) (fkDepthL xs)
-def fkDepthB : List (Range × PV) → Nat
-  | [] => 0
-  | (_, x) :: xs => max (fkDepth x) (fkDepthB xs)
-def fkDepthF : List (Form × PV) → Nat
-  | [] => 0
-  | (_, x) :: xs => max (fkDepth x) (fkDepthF xs)
 end
 
 mutual
